@@ -69,6 +69,7 @@ func GetIncludeNode(template Node, variables map[string]Node, ignoreMissing, onl
 	node := IncludeNodePool.Get().(*IncludeNode)
 	node.template = template
 	node.variables = variables
+	node.order = nil
 	node.ignoreMissing = ignoreMissing
 	node.only = only
 	node.sandboxed = sandboxed
@@ -83,6 +84,7 @@ func ReleaseIncludeNode(node *IncludeNode) {
 	}
 	node.template = nil
 	node.variables = nil
+	node.order = nil
 	node.ignoreMissing = false
 	node.only = false
 	node.sandboxed = false
